@@ -15,12 +15,12 @@ for l in open(log):
         s = re.sub(r":$", "", m.group(1))
         if s not in sigs:
             sigs.append(s)
-rc = int(kv["check_" + prop])
+rc = 1 if sigs else 0   # the check log is the one written last (tools/check_seed.sh on /repo HEAD + patch)
 meta = {
     "property": prop,
     "breaks": breaks,
     "needs_to_manifest": needs,
-    "written_by": "independent sub-agent (round 2-5) given only the property text, the one-line description of the round-1 change to avoid, and a scratch worktree",
+    "written_by": "independent sub-agent (rounds 2-6) given only the property text, the one-line description of the round-1 change to avoid, and a scratch worktree",
     "confirmed_by_me": {
         "compiles": kv["compile"] == "0",
         "upstream_suite_passes_with_change": kv["upstream_tests"] == "0",
